@@ -14,11 +14,11 @@ CHECKS = {
  "C05": ("translation_validation", "arrange with every marker combination and window functions with every partition/order specification, in every position relative to filter/slice_head/select/rename/alias: z3 shows sequence / per-row equality with the reference for all tables in the bounds (order keys total, null positions only where a marker fixes them)", "3 C05", TV, NOTE_E1, "E1"),
  "C06": ("translation_validation", "join templates (inner/left/full/cross; equality, conjunction, inequality, expression predicates; filters/mutates/renames/aliases on either side; hidden and colliding names): z3 shows the exact multiset of row combinations incl. null padding equals the reference for all pairs of tables in the bounds; names per the documented suffix rule and reachability of hidden columns via probe columns", "3 C06", TV, NOTE_E1, "E1"),
  "C07": ("translation_validation", "union templates (permuted columns, hidden/overwritten columns, distinct / all, chained, verbs before and after): z3 shows by-name alignment and multiplicities equal the reference for all pairs of tables in the bounds; unions of tables whose visible names differ are rejected when built (8 clauses x 2 backends, evaluated)", "3 C07", TV, NOTE_E1, "E1"),
- "C08": ("translation_validation", "every order of the verb kinds filter / element-wise, window and aggregate mutate / grouped and ungrouped summarize / slice_head / arrange / join of length <= 2 (48 rotating of length 3; all in thorough) with and without alias() at every position: whenever SQLite accepts the pipeline z3 shows its SQL equals the Polars plan and the reference for all tables in the bounds; acceptance clauses (alias repairs SubqueryError, never-needs class, Polars never raises) evaluated per sequence on the real library; K1 for the limit/offset composition", "3 C08", TV, NOTE_E1 + " The acceptance clauses have no value quantifier (exception behaviour only).", "E1"),
+ "C08": ("translation_validation", "every order of the verb kinds filter / element-wise, window and aggregate mutate / grouped and ungrouped summarize / slice_head / arrange / left join / left join of a derived table / full join of length <= 2 (48 rotating of length 3; all in thorough) with and without alias() at every position: whenever SQLite accepts the pipeline z3 shows its SQL equals the Polars plan and the reference for all tables in the bounds; acceptance clauses (alias repairs SubqueryError, never-needs class, Polars never raises) evaluated per sequence on the real library; K1 for the limit/offset composition", "3 C08", TV, NOTE_E1 + " The acceptance clauses have no value quantifier (exception behaviour only).", "E1"),
  "C09": ("translation_validation", "probe templates: after every history (rename, swaps, rename onto hidden names, select/drop, overwrite and re-create, arrange, filter, joins with suffixing, alias(keep_col_refs=True), references from intermediate tables) a probe column built from the OLD reference is shown by z3 to carry the originally referenced data on both backends for all data; derived[ref].name and the rejection clauses are compared with REF per template", "3 C09", TV, NOTE_E1 + " Names and exception types have no value quantifier.", "E1"),
  "C10": ("translation_validation", "pairs (pipeline built from SHARED expression / table objects, same pipeline built from fresh objects): z3 shows the compiled artefacts of the shared version equal REF of the pipeline as written and the artefacts of the fresh version, per backend, for all data - one aggregate/window expression under two groupings and in mutate+summarize, C-expressions and case expressions reused, tables reused after export/build_query and after pipelines derived from them", "3 C10", TV, NOTE_E1, "E1"),
  "C11": ("exploration", "part 1: for every verb history of the corpora the metadata accessors (columns(), iteration, len, in, dir, []) equal the names and order of the compiled select list on both backends; part 2: CrossHair executes the real verbs / Cache.update / Cache.from_ast / polars.compile_ast with SYMBOLIC column names and selections and confirms over all paths that incremental metadata = recomputed metadata = compiled select list", "3 C11", CH + "; bounded enumeration of verb histories for the structural part", "no table value occurs in this property; the solver chooses names (1 character quick / 2 thorough over a 5-letter alphabet) and selections; the rest is bounded enumeration", "E2"),
- "C12": ("exploration", "per template of the union corpus: schema of the compiled Polars plan equals the static dtypes exactly (Polars' schema inference as oracle); kind of every SQLite output expression as tracked by SEM_sqlite and passed through the SQLAlchemy result processor of the real Select (no Boolean / Date / DateTime processor = raw integer / text) equals the family of the static dtype; on random concrete tables the exported schemas, Table(exported) and collect() reproduce the types", "3 C12", "static typing of the compiled artefacts (SEM_sqlite kinds, Polars collect_schema) per enumerated program; no solver query decides this property", "types are a per-program property: no value quantifier for the Polars part; re-import / collect run natively on sampled tables", "E1"),
+ "C12": ("exploration", "per template of the union corpus: schema of the compiled Polars plan equals the static dtypes exactly (Polars' schema inference as oracle); kind of every SQLite output expression as tracked by SEM_sqlite and passed through the SQLAlchemy result processor of the real Select (no Boolean / Date / DateTime processor = raw integer / text) equals the family of the static dtype, where for the numeric family the result type of the real Select decides (a Float column must be typed Float there, an Int column must have modelled INTEGER storage); on random concrete tables the exported schemas, Table(exported) and collect() reproduce the types", "3 C12", "static typing of the compiled artefacts (SEM_sqlite kinds, Polars collect_schema) per enumerated program; no solver query decides this property", "types are a per-program property: no value quantifier for the Polars part; re-import / collect run natively on sampled tables", "E1"),
  "C13": ("other", "z3 decides for ALL argument-type tuples over the 50-element type universe (arity as declared, varargs unrolled to 4) that no operator has an ambiguous best overload (the internal assertion), that sized int/float/decimal types are accepted wherever the generic one is with a result of the same family, that constants are accepted wherever columns are and that const parameters reject columns; relations are read by calling the real converts_to/conversion_cost/implicit_conversions, the matching rule is validated exhaustively against the real trie on all unary and binary tuples; CrossHair confirms the arg-min kernel (K5) and the Decimal(p,s)/String(n) families (K6); const-ness of typed constants (lit(v, T), casts of constants) and their acceptance in const-declared parameters is evaluated on the real ColFn.dtype() (operator x position x constant form)", "2.3, 3 C13", "z3 over finite relations read from the live type lattice and overload tries; " + CH, "finite type universe; the symbolic matcher is a reference model of SignatureTrie.all_matches (exhaustively validated for arity <= 2)", "E3"),
  "C14": ("exploration", "every rejection rule x syntactic position x preceding history on Polars- and SQLite-backed tables: documented exception type, identical on both backends, input table still usable; CrossHair (K4) runs the real rename / join-suffix code with symbolic names and confirms: well-formed table or the documented ValueError, never a silently lost column", "3 C14", CH + " for the name rules; bounded enumeration for the other rules", "the quantifier of this property is the program only; the solver decides the string part", "E2"),
  "C15": ("translation_validation", "each documented equivalence is instantiated, both sides are compiled by the real code and z3 shows SEM(side A) = SEM(side B) per backend for all data (artefact vs artefact), plus side A vs REF; chained slice_head vs combined slice additionally for all integers (K1)", "3 C15", TV + "; " + CH, NOTE_E1, "E1"),
